@@ -219,8 +219,11 @@ def sample(
     # Pick which triangles will be sampled.
     cumulative_weights = np.cumsum(weights)
     total_weight = cumulative_weights[-1]
+    # `side="right"` selects face `i` when `cum[i-1] <= x < cum[i]`, so a face
+    # with zero weight (an empty interval) is never selected, even for a draw
+    # of exactly 0.0.
     face_indices = np.searchsorted(
-        cumulative_weights, rng.random(num_samples) * total_weight
+        cumulative_weights, rng.random(num_samples) * total_weight, side="right"
     )
 
     v0s = vertices_of_tris[face_indices, 0]
